@@ -52,7 +52,10 @@ def child_env(hashseed):
     return env
 
 
-CASE_WALL_S = 300     # wall-clock backstop per case (loops inside C code are invisible to the step budget)
+CASE_CPU_S = 300      # CPU-seconds a single case may burn (loops inside C code are invisible to the step
+                      # budget); enforced with RLIMIT_CPU, so machine load cannot trip it.  Heaviest legitimate
+                      # case: ~70 CPU-s
+CASE_WALL_S = 1800    # wall-clock backstop for anything that hangs without burning CPU
 
 
 def batch_hashseed(verif_seed, b):
@@ -78,8 +81,15 @@ def worker_main():
     check, tier, vseed = job["check"], job["tier"], job["seed"]
     out = sys.stdout
     agg = Aggregate()
+    import resource
+    import signal
+    faulthandler.register(signal.SIGXCPU, chain=True)     # say where it was looping, then die
+    _soft, hard = resource.getrlimit(resource.RLIMIT_CPU)
     for i in job["indices"]:
-        faulthandler.dump_traceback_later(job.get("run_timeout", 300), exit=True)
+        faulthandler.dump_traceback_later(job.get("run_timeout", CASE_WALL_S), exit=True)
+        budget = int(time.process_time()) + job.get("cpu_limit", CASE_CPU_S) + 1
+        if hard == resource.RLIM_INFINITY or budget < hard:
+            resource.setrlimit(resource.RLIMIT_CPU, (budget, hard))   # SIGXCPU ends a case that never returns
         out.write(json.dumps({"start": i}) + "\n")
         out.flush()
         spec = plans.case_spec(check, tier, vseed, i)
@@ -102,6 +112,7 @@ def worker_main():
             line["spec"] = spec
         out.write(json.dumps(line, default=str) + "\n")
         out.flush()
+    resource.setrlimit(resource.RLIMIT_CPU, (hard, hard))
     out.write(json.dumps({"summary": agg.dump(), "seams": seams._INSTALLED,
                           "hashseed": os.environ.get("PYTHONHASHSEED")}, default=str) + "\n")
     out.flush()
@@ -263,7 +274,7 @@ def run_batch(check, tier, vseed, b, indices, ref_table, timeout, want_logs=Fals
         if STOP.is_set():
             break
         job1 = dict(job, indices=[culprit], run_timeout=CASE_WALL_S)
-        l1, e1, rc1 = _run_worker(job1, hs, CASE_WALL_S + 100)
+        l1, e1, rc1 = _run_worker(job1, hs, CASE_WALL_S + 100)   # dies again by SIGXCPU if it really loops
         if rc1 == "stopped":
             break
         if any("summary" in l for l in l1):
@@ -402,7 +413,7 @@ def coordinator(check, tier, runs, budget_s, workers, vseed):
         spec = plans.case_spec(check, tier, vseed, dc["case"])
         if check == "C03":
             # bounded termination is part of C03: a case that kills its worker twice is a hang
-            v = {"property": "C03", "oracle": "terminates", "detail": "worker died twice on this case (wall-clock backstop): %s" % dc["stderr"][-600:],
+            v = {"property": "C03", "oracle": "terminates", "detail": "the case did not return within %d CPU-seconds, twice (SIGXCPU; loops inside C code are invisible to the step budget): %s" % (CASE_CPU_S, dc["stderr"][-900:]),
                  "op_index": -1, "outcome": "hang", "sig": "C03/terminates/hang/-/-"}
             path = write_replay(check, v, spec, hs, shrink=False)
             replay_paths.append((v, path, 1))
